@@ -14,7 +14,7 @@ import subprocess
 import tempfile
 
 from .. import seeds, shrink
-from ..pool import Pool, PYTHON, unwrap
+from ..pool import Pool, PYTHON, Skips, unwrap
 from ..scenario import cli_spec, gen_scenario, has_model_code, split_header
 
 PROP = "C16"
@@ -85,12 +85,19 @@ def first_diff(a, b):
 
 def evaluate(pool, runs):
     specs = [cli_spec(r["scenario"], clock=r["clock"], glob_seed=r["glob_seed"]) for r in runs]
-    recs = [unwrap(x) for x in pool.map("simenv:job_cli", specs, timeout=90)]
-    oracles = [unwrap(x) for x in pool.map("scenario:job_oracle",
-                                           [{"scenario": r["scenario"], "events": rec["events"]} for r, rec in zip(runs, recs)],
-                                           timeout=90)]
+    skips = Skips(limit=max(5, len(runs) // 100))
+    recs = [skips.take(x) for x in pool.map("simenv:job_cli", specs, timeout=90)]
+    oracles = [skips.take(x) for x in pool.map("scenario:job_oracle",
+                                               [{"scenario": r["scenario"], "events": (rec or {}).get("events")}
+                                                for r, rec in zip(runs, recs)], timeout=90)]
+    for k in range(len(runs)):
+        if recs[k] is None or oracles[k] is None:
+            # time limit hit: the scenario is not judged (both sides are made to 'fail' so judge() skips it)
+            recs[k] = {"status": 1, "exc": {"type": "TimeLimit", "msg": ""}, "stdout": "", "events": [], "glob_calls": [],
+                       "clock": {"reads": 0, "first": None, "last": None}, "argv": [], "out_b64": None}
+            oracles[k] = {"exc": "TimeLimit", "msg": ""}
     # same instant, no -o
-    idx = [i for i, r in enumerate(runs) if r["scenario"].get("out")]
+    idx = [i for i, r in enumerate(runs) if r["scenario"].get("out") and recs[i]["exc"] != {"type": "TimeLimit", "msg": ""}]
     no = [unwrap(x) for x in pool.map("simenv:job_cli",
                                       [cli_spec(dict(runs[i]["scenario"], out=None), clock=runs[i]["clock"],
                                                 glob_order=recs[i]["glob_calls"]) for i in idx], timeout=90)]
